@@ -120,16 +120,16 @@ Print Assumptions match_op_through_pointer.
 
 
 (* ---- ties to the constant tables regenerated from the Go sources (tools/gotables -> GoTables.v) ---- *)
-From Coq Require Import List String ZArith NArith Bool. From Bexpr Require Import Base Strconv Ast Univ Eval Api Dump GoTables TableTie. Import ListNotations.
+From Coq Require Import List String ZArith NArith Bool. From Bexpr Require Import Base Strconv Ast Univ Eval Api Dump GoTables TableTie TieCoerce. Import ListNotations.
 
 Theorem coercion_dispatch :
   forall k : kind, table_or_default (kind_go k) go_coerce_of_kind = Some (coerce_fn_of_class (sclass_of k)).
-Proof. exact TableTie.coercion_dispatch. Qed.
+Proof. exact TieCoerce.coercion_dispatch. Qed.
 Print Assumptions coercion_dispatch.
 
 Theorem equality_dispatch :
   forall k : kind, table_or_default (kind_go k) go_equality_fn = Some (eq_fn_of_class (sclass_of k)).
-Proof. exact TableTie.equality_dispatch. Qed.
+Proof. exact TieCoerce.equality_dispatch. Qed.
 Print Assumptions equality_dispatch.
 
 Theorem coerce_calls :
@@ -138,7 +138,7 @@ Theorem coerce_calls :
   assoc "CoerceBool" go_coerce_calls = Some ("strconv.ParseBool", []) /\
   assoc "CoerceFloat32" go_coerce_calls = Some ("strconv.ParseFloat", [32]) /\
   assoc "CoerceFloat64" go_coerce_calls = Some ("strconv.ParseFloat", [64]).
-Proof. exact TableTie.coerce_calls. Qed.
+Proof. exact TieCoerce.coerce_calls. Qed.
 Print Assumptions coerce_calls.
 
 Theorem coerce_uses_those_calls :
@@ -167,6 +167,6 @@ Theorem coerce_uses_those_calls :
             end
   | _ => Ok (LStr raw)
   end.
-Proof. exact TableTie.coerce_uses_those_calls. Qed.
+Proof. exact TieCoerce.coerce_uses_those_calls. Qed.
 Print Assumptions coerce_uses_those_calls.
 
